@@ -27,18 +27,24 @@ Edges(x) == {<<x.E[i][1], x.E[i][2]>> : i \in 1..Len(x.E)}
 \* candidate sessions of ISO 14229-1 (sub-function values 0x01..0x7F)
 NCandIso == 127
 
+\* an entry with requested = 0 is an ECUReset the model performed (scanner option --reset): not a session
+\* change request; it puts the ECU back into the default session
+IsReset(r) == r[1] = 0
 ModelConsistent(x) ==
   LET G == Edges(x) IN
   \A i \in 1..Len(x.reqs) :
     LET r == x.reqs[i] IN
-    /\ (r[3] = 1) = (<<r[2], r[1]>> \in G)
-    /\ r[4] = (IF r[3] = 1 THEN r[1] ELSE r[2])
+    /\ IF IsReset(r) THEN r[4] = Default
+       ELSE /\ (r[3] = 1) = (<<r[2], r[1]>> \in G)
+            /\ r[4] = (IF r[3] = 1 THEN r[1] ELSE r[2])
     /\ r[2] = (IF i = 1 THEN Default ELSE x.reqs[i - 1][4])
+
+Requested(x) == {x.reqs[i][1] : i \in {j \in 1..Len(x.reqs) : ~IsReset(x.reqs[j])}}
 
 FullVerdict(x) ==
   IF ~ModelConsistent(x) THEN "B0/ecu-model-inconsistent-with-its-graph"
   ELSE Verdict(Edges(x), SeqSet(x.skip), x.depth, NCandIso,
-               {x.reqs[i][1] : i \in 1..Len(x.reqs)}, Len(x.reqs) + x.nother,
+               Requested(x), Len(x.reqs) + x.nother,
                SeqSet(x.result), SeqSet(x.rows), x.end)
 
 \* informational notes (never verdicts)
@@ -47,7 +53,7 @@ FullVerdict(x) ==
 \*  rowsX    session_transition rows for sessions that are not reported as found
 \*           ("identified but not activated"): the statement is silent about them
 Notes(x) ==
-  <<IF ~G3({x.reqs[i][1] : i \in 1..Len(x.reqs)}, SeqSet(x.skip), FALSE) THEN "S16" ELSE "",
+  <<IF ~G3(Requested(x), SeqSet(x.skip), FALSE) THEN "S16" ELSE "",
     IF \E r \in SeqSet(x.rows) : r.s \notin SeqSet(x.result) THEN "rowsX" ELSE "",
     IF Default \in SeqSet(x.skip) /\ Default \in SeqSet(x.result) THEN "default-reported-though-skipped" ELSE "">>
 
